@@ -109,7 +109,7 @@ theorem Obj.other_ok (hI : VolInv s gh) (hx : Obj s gh h x) {h' : Nat} (hh' : h'
 
 /-- **Every licence of a call that does not target the object leaves it alone.** -/
 theorem licence_notNamed {op : Op} {L : Licence} (hI : VolInv s gh) (hx : Obj s gh h x) (hn : ¬ Targets s h (sName x) (spos x) op)
-    (hl : LicenceFor gh s.files s.dirs s.dev.disk op L) :
+    (hrf : ¬ Reflush s (spos x) op) (hl : LicenceFor gh s.files s.dirs s.dev.disk op L) :
     NotNamed gh.vol L x.1 x.2.1 (chainOf gh.G (sCluster gh.vol.fatType x)) ∧
     ∀ c, c ∈ (dirChain gh.vol gh.G h).dropLast → c ∉ L.fatClusters := by
   have hM := medX_of_med hI.med
@@ -146,10 +146,8 @@ theorem licence_notNamed {op : Op} {L : Licence} (hI : VolInv s gh) (hx : Obj s 
     subst hr'
     have h2 := key c (hcs' c hc)
     exact ⟨h2.1, fun hic => h2.2 (slot_cluster hM hx.dir hx.memSlots (hin c hc) hic)⟩
-  | flush hd f hf hh hdirty =>
-    have hkey : fkey f ≠ spos x := fun e => by
-      have := hx.quiet f hf e
-      rw [hdirty] at this; cases this
+  | flush hd f hf hh hdirty i hidx hfi =>
+    have hkey : fkey f ≠ spos x := fun e => hrf ⟨i, f, hidx, hfi, e, hdirty⟩
     obtain ⟨h', hh', A, o, B, hO, hpo, _, _, _, _⟩ := file_object hM.tree hf
     have ho : o ∈ objects h' (dirSlots gh.vol s.dev.disk gh.G h') := by rw [hO]; simp
     refine ⟨⟨(fun c _ hc => nomatch hc), (fun c hc => nomatch hc), ?_, (fun r hr => nomatch hr)⟩, (fun c _ hc => nomatch hc)⟩
@@ -160,10 +158,8 @@ theorem licence_notNamed {op : Op} {L : Licence} (hI : VolInv s gh) (hx : Obj s 
     have hb : (fkey f).1 = o.1 := by rw [← hpo]
     rw [hb]
     exact hx.slotblock_ok hI hh' (mem_of_mem_objects ho)
-  | closeFile hd f hf hh hdirty =>
-    have hkey : fkey f ≠ spos x := fun e => by
-      have := hx.quiet f hf e
-      rw [hdirty] at this; cases this
+  | closeFile hd f hf hh hdirty i hidx hfi =>
+    have hkey : fkey f ≠ spos x := fun e => hrf ⟨i, f, hidx, hfi, e, hdirty⟩
     obtain ⟨h', hh', A, o, B, hO, hpo, _, _, _, _⟩ := file_object hM.tree hf
     have ho : o ∈ objects h' (dirSlots gh.vol s.dev.disk gh.G h') := by rw [hO]; simp
     refine ⟨⟨(fun c _ hc => nomatch hc), (fun c hc => nomatch hc), ?_, (fun r hr => nomatch hr)⟩, (fun c _ hc => nomatch hc)⟩
